@@ -16,3 +16,7 @@ def run(ctx):
     engine_common.run_engine(ctx, ["C02:"], n_quick=3000, n_thorough=60000)
     ctx.cov["rule"] = ("seeded LOCK/UNLOCK sequences incl. unlocks of queued / expired / never-existing LockIds, unlock-first, cancel-wait, re-locks with all Rcount classes; "
                        "distinct_nontrivial = distinct sequences containing at least one grant")
+
+
+def replay(path):
+    return engine_common.replay_engine("C02", path)
